@@ -402,3 +402,151 @@ def expect_union(c, t, d, j, where):
     if v != 'A':
         return v, r
     return 'A', ('union', (ns, d['name']), tag, r)
+
+
+# =======================================================================================
+# caller permissions and redaction (C13)
+
+import hashlib
+
+
+class Refused(Exception):
+    """The encoding must be refused (a union tag the caller may not see)."""
+
+
+def redactor_of(idx, annots):
+    for a in annots or []:
+        d = idx.get(a[0], a[1])
+        if d['atype'][1] in ('RedactedBlot', 'RedactedHash'):
+            return d['atype'][1], (d['args'][0] if d['args'] else None)
+    return None
+
+
+def redact_scalar(red, val):
+    """Blot mask, the configured regex groups, or the hash (property statement / lang_ref
+    "Redaction")."""
+    kind, regex = red
+    m = None
+    if regex:
+        try:
+            m = re.search(regex, val)
+        except TypeError:
+            m = None
+    if kind == 'RedactedBlot':
+        return '***'.join(m.groups()) if m else '********'
+    text = str(val) if isinstance(val, (int, float)) else val
+    try:
+        hashed = hashlib.md5(text.encode('utf-8')).hexdigest()
+    except (AttributeError, ValueError):
+        hashed = None
+    if m:
+        blotted = '***'.join(m.groups())
+        return '%s (%s)' % (hashed, blotted) if hashed else blotted
+    return hashed
+
+
+class Redacted:
+    """Marks a value the reference encoder replaced by a redactor."""
+
+    def __init__(self, value):
+        self.value = value
+
+
+def unmark(j):
+    if isinstance(j, Redacted):
+        return j.value
+    if isinstance(j, dict):
+        return {k: unmark(v) for k, v in j.items()}
+    if isinstance(j, list):
+        return [unmark(v) for v in j]
+    return j
+
+
+def redacted_positions_differ(exp, got, path=''):
+    """Compare only the positions the reference redacted; returns a description or None."""
+    if isinstance(exp, Redacted):
+        if not json_equal(_plain(exp.value), _plain(got)):
+            return '%s: expected %r, got %r' % (path, exp.value, got)
+        return None
+    if isinstance(exp, dict) and isinstance(got, dict):
+        for k, v in exp.items():
+            if k in got:
+                r = redacted_positions_differ(v, got[k], path + '/' + ('.tag' if k == '.tag' else 'k'))
+                if r:
+                    return r
+    elif isinstance(exp, list) and isinstance(got, list) and len(exp) == len(got):
+        for a, b in zip(exp, got):
+            r = redacted_positions_differ(a, b, path + '/[]')
+            if r:
+                return r
+    return None
+
+
+def _plain(j):
+    import json as _json
+    return _json.loads(_json.dumps(j))
+
+
+def redact_value(red, v):
+    return Redacted(_redact_value(red, v))
+
+
+def _redact_value(red, v):
+    if isinstance(v, list):
+        return [redact_scalar(red, x) for x in v]
+    if isinstance(v, dict):
+        return {k: redact_scalar(red, x) for k, x in v.items()}
+    return redact_scalar(red, v)
+
+
+def encode_p(idx, t, v, callers, redact):
+    """Reference encoder with caller permissions and redaction."""
+    from .values import omitted_for
+    k = t[0]
+    if k == 'alias':
+        a = idx.get(t[1], t[2])
+        red = redactor_of(idx, a.get('annots')) if redact else None
+        if red and v is not None:
+            return redact_value(red, v)
+        return encode_p(idx, a['type'], v, callers, redact)
+    if k == 'nullable':
+        return None if v is None else encode_p(idx, t[1], v, callers, redact)
+    if k == 'prim':
+        return encode(idx, t, v)
+    if k == 'list':
+        return [encode_p(idx, t[1], x, callers, redact) for x in v]
+    if k == 'map':
+        return {key: encode_p(idx, t[2], x, callers, redact) for key, x in v.items()}
+    if v[0] == 'struct':
+        ns, name = v[1]
+        d = idx.get(ns, name)
+        out = {}
+        declared = idx.get(t[1], t[2])
+        if declared.get('subtypes'):
+            out['.tag'] = [tg for tg, kid in declared['subtypes']['items'] if kid == name][0]
+        for _, _, f in idx.struct_all_fields(ns, d):
+            if f['name'] in v[2] and not omitted_for(idx, f, callers):
+                red = redactor_of(idx, f.get('annots')) if redact else None
+                if red:
+                    out[f['name']] = redact_value(red, v[2][f['name']])
+                else:
+                    out[f['name']] = encode_p(idx, f['type'], v[2][f['name']], callers, redact)
+        return out
+    ns, name = v[1]
+    d = idx.get(ns, name)
+    tag = v[2]
+    tg = [x for _, _, x in idx.union_all_tags(ns, d) if x['name'] == tag][0]
+    if omitted_for(idx, tg, callers):
+        raise Refused(tag)
+    if tg['type'] is None or v[3] is None:
+        return {'.tag': tag}
+    red = redactor_of(idx, tg.get('annots')) if redact else None
+    inner = redact_value(red, v[3]) if red else encode_p(idx, tg['type'], v[3], callers, redact)
+    b = idx.base(tg['type'])
+    if b[0] == 'ref' and not red:
+        kd = idx.get(b[1], b[2])
+        if kd['k'] == 'struct' and not kd.get('subtypes'):
+            out = {'.tag': tag}
+            out.update(inner)
+            return out
+    return {'.tag': tag, tag: inner}
